@@ -66,6 +66,7 @@ func runC05(c *Ctx) {
 		c.undecided(P, "live", "fn=Allocate", "", "function not found")
 		return
 	}
+	runC05Atomic(c, P)
 	// insertions into handles
 	type ins struct {
 		mu    *ssa.MapUpdate
